@@ -34,6 +34,9 @@ type ApprovalCfg struct {
 	// split verdict: a deciding verdict is parked once more after it stopped the timer (it holds the decision lock there)
 	// while the next steps of the schedule run
 	SplitVerdict int `json:"splitverdict"`
+	// an uninvolved second peer is connected and its connection is removed at this position of the schedule (-1 = never):
+	// the outcomes of the first peer's writes do not depend on it
+	OtherDisc int `json:"otherdisc"`
 }
 type PStep struct {
 	K string `json:"k"`
@@ -56,6 +59,7 @@ type ApprovalLine struct {
 	AfterDisc    int                 `json:"afterdisc"` // datagrams written to the connection after it was removed
 	Disconnect   int                 `json:"disconnect"`
 	SplitVerdict int                 `json:"splitverdict"`
+	OtherDisc    int                 `json:"otherdisc"`
 	SplitTimer   int                 `json:"splittimer"`
 	Late         map[string]bool     `json:"late"`
 }
@@ -90,16 +94,36 @@ func approvalReplay(args []string) {
 	sc.Buffer(make([]byte, 1<<20), 1<<26)
 	n := 0
 	for sc.Scan() {
-		c := ApprovalCfg{Disconnect: -1, Late: map[string]bool{}}
+		c := ApprovalCfg{Disconnect: -1, OtherDisc: -1, Late: map[string]bool{}}
 		must(json.Unmarshal(sc.Bytes(), &c))
-		must(enc.Encode(runApproval(topo, c)))
+		// a schedule that deadlocks the stack must not hang the check: after 20 s the line is written as a hang and the
+		// process ends (nothing after it in this process can be trusted)
+		done := make(chan ApprovalLine, 1)
+		go func() { done <- runApproval(topo, c) }()
+		select {
+		case line := <-done:
+			must(enc.Encode(line))
+		case <-time.After(20 * time.Second):
+			line := ApprovalLine{Verdict: c.Verdict, Expires: c.Expires, Sched: c.Sched, PSched: []PStep{}, Unsafe: c.Unsafe, Blocked: -1, Disconnect: c.Disconnect,
+				SplitTimer: c.SplitTimer, SplitVerdict: c.SplitVerdict, OtherDisc: c.OtherDisc, Late: c.Late, Outcomes: map[string][]string{}, Presented: map[string][]int{}, Values: map[string]int{},
+				Panic: "hang: the schedule did not finish within 20 s (a call of the stack blocks forever)"}
+			for w, v := range c.Verdict {
+				line.Outcomes[w] = []string{}
+				line.Presented[w] = make([]int, len(v))
+				line.Values[w] = 0
+			}
+			must(enc.Encode(line))
+			out.Close()
+			fmt.Printf("{\"schedules\": %d, \"hung\": true}\n", n+1)
+			os.Exit(0)
+		}
 		n++
 	}
 	fmt.Printf("{\"schedules\": %d}\n", n)
 }
 
 func runApproval(topo *Topo, c ApprovalCfg) ApprovalLine {
-	line := ApprovalLine{Verdict: c.Verdict, Expires: c.Expires, Sched: c.Sched, Unsafe: c.Unsafe, Blocked: -1, Realised: true, Disconnect: c.Disconnect, SplitTimer: c.SplitTimer, SplitVerdict: c.SplitVerdict, Late: c.Late,
+	line := ApprovalLine{Verdict: c.Verdict, Expires: c.Expires, Sched: c.Sched, Unsafe: c.Unsafe, Blocked: -1, Realised: true, Disconnect: c.Disconnect, SplitTimer: c.SplitTimer, SplitVerdict: c.SplitVerdict, OtherDisc: c.OtherDisc, Late: c.Late,
 		Outcomes: map[string][]string{}, Presented: map[string][]int{}, Values: map[string]int{}}
 	line.PSched = []PStep{} // the steps in the order in which they really ran (a held or blocked verdict ends later than scheduled)
 	s := NewSystem(topo)
@@ -108,6 +132,10 @@ func runApproval(topo *Topo, c ApprovalCfg) ApprovalLine {
 	s.step(Action{"a": "connect", "p": "p1"})
 	s.step(Action{"a": "discover", "p": "p1", "ents": []any{"1", "2"}, "ack": false})
 	s.step(Action{"a": "bind", "p": "p1", "c": "c11", "s": "S1", "ft": "LoadControl", "ack": false})
+	if c.OtherDisc >= 0 {
+		s.step(Action{"a": "connect", "p": "p2"})
+		s.step(Action{"a": "discover", "p": "p2", "ents": []any{"1", "2"}, "ack": false})
+	}
 	S1 := s.lfeat["S1"]
 	var writes []string
 	for w := range c.Verdict {
@@ -243,6 +271,9 @@ func runApproval(topo *Topo, c ApprovalCfg) ApprovalLine {
 		}
 	}
 	for i, name := range c.Sched {
+		if c.OtherDisc == i {
+			s.dev.RemoveRemoteDeviceConnection(s.peers["p2"].ski)
+		}
 		if c.Disconnect == i {
 			// (a send that has drawn its counter is in flight: it completes before the connection is removed - the
 			// property is read for sends that start after the removal, as C16 states it for refreshes in flight)
